@@ -36,8 +36,15 @@ N == Len(Ev)
 Gfx == Tr.gfx
 Id == Tr.ident
 
-OK == [v |-> "ok", at |-> 0, info |-> "", alias |-> FALSE, topimg |-> FALSE, n |-> 0]
-V(v, info, n) == [v |-> v, at |-> l + 1, info |-> info, alias |-> FALSE, topimg |-> FALSE, n |-> n]
+OK == [v |-> "ok", at |-> 0, info |-> "", alias |-> FALSE, topimg |-> FALSE, n |-> 0, ctx |-> ""]
+\* ctx: in which situation the event happened (part of the finding's signature)
+CtxOf(e) ==
+  IF e.op \in {"redraw", "same", "bad"}
+    THEN IF TopLeaf(e.lay) THEN (IF cv # {} THEN "non-composite-after-images" ELSE "non-composite")
+         ELSE IF e.op = "bad" THEN "failing-draw" ELSE "composite"
+    ELSE e.op
+V(v, info, n) == [v |-> v, at |-> l + 1, info |-> info, alias |-> FALSE, topimg |-> FALSE, n |-> n,
+                  ctx |-> CtxOf(Ev[l + 1])]
 
 PrevWd == IF l = 0 THEN <<>> ELSE Ev[l].wd
 PrevDis == IF l = 0 THEN [c |-> 0, w |-> <<>>] ELSE Ev[l].dis
@@ -162,7 +169,8 @@ AfterClause(e, r) ==
 
 FatalClauses == {"exception", "bad-layout", "terminal-error", "oracle-mismatch", "unexpected-output"}
 Fatal(x) == x.v \in FatalClauses
-Kind(x, ti) == [v |-> x.v, alias |-> x.alias, topimg |-> ti, info |-> IF x.v = "exception" THEN x.info ELSE ""]
+Kind(x, ti) == [v |-> x.v, alias |-> x.alias, topimg |-> ti, ctx |-> x.ctx,
+                info |-> IF x.v \in {"exception", "terminal-error", "no-delete-all", "not-cleared"} THEN x.info ELSE ""]
 
 Init ==
   /\ tid \in 1..Len(Traces)
